@@ -21,8 +21,9 @@ TRUSTED = ["modelled, not verified here: the atomicity of the Ipc::StoreMap call
 ASSUMPTIONS = ["collapsed_forwarding off (default); memory_cache_shared on; quick_abort_min -1; server_persistent_connections off",
                "whether a read that runs while the entry is being written finds it (hit, outcome tied to the writer) or fetches itself (miss) "
                "depends on timing, as does a hit right after a rock-only write (the disker finishes asynchronously): the model gives both",
-               "rock instance: a write that finds the slot still locked by the disker's previous write of the same key fails and releases the "
-               "entry in every store, so after two writes of a key a predicted hit may also be a miss (the oracle is unaffected)",
+               "rock instance: a rock write that finds its slot locked (the disker's previous write of the key, a colliding key of a concurrent "
+               "scenario) fails and releases the entry in every store, so there a predicted hit may also be a miss; the memory-only instance "
+               "keeps exact hit/miss predictions; the oracle is unaffected",
                "one Date for all versions of a scenario; responses fresh (max-age=86400)"]
 MANIFEST = {
     "engine": "e2e",
